@@ -2,7 +2,7 @@
    Only statements; proofs by `exact`.  `bolt_decode`/`boltv2_decode` are the models of
    boltProtocol.Decode / boltv2Protocol.Decode over the header block decoder that is in the tree
    (Gen/CodecSrc.v xp_hdr_checked is read from xprotocol/header.go and the bolt decoders on every run). *)
-From Coq Require Import List NArith Bool.
+From Coq Require Import List NArith Bool PeanoNat.
 From MV Require Import Lib.Bytes Lib.Dec Lib.Seg Gen.ProtoConsts Gen.CodecSrc Model.HeaderKV Model.Bolt Model.Xcodecs
   Proofs.HeaderKV Proofs.Bolt Proofs.Xcodecs.
 (* the comparison functions used by the correspondence shards: imported so that they are rebuilt with this file *)
@@ -146,3 +146,46 @@ Proof. vm_compute. reflexivity. Qed.
 Example c08_thrift_short_message_example :
   res (thrift_decode (fun _ => None) (view_of [0;0;0;1; 218; 0;0;0;67;218;188])) = Err ERR_RECOVERED.
 Proof. vm_compute. reflexivity. Qed.
+
+(* ===== "a failure affects only that connection (error reply or close)" =====
+   Lib/Seg.v feed/drain is the Dispatch loop with handleError's decision: a decode error closes THIS connection (EClose,
+   buffer dropped, connection dead) or answers THIS request (EReply) and goes on - conn.go as repaired, read from the
+   source (c08_dispatch_shape_ok).  mfeed/mrun: one dispatch state per connection, interleaved reads. *)
+Theorem c08_dispatch_shape_ok : dispatch_continues_after_reply = true.
+Proof. exact eq_refl. Qed.
+
+Theorem c08_error_is_local : forall (F : Type) (parse : bytes -> presult F),
+  (* whatever connection i reads - malformed or not - no other connection's state changes *)
+  (forall ms i c j, j <> i -> mfeed parse ms i c j = ms j) /\
+  (* after any interleaved history connection j is in the state it reaches on its own reads alone *)
+  (forall hist ms j, mrun parse ms hist j =
+     fold_left (feed parse) (map snd (filter (fun ic => Nat.eqb (fst ic) j) hist)) (ms j)) /\
+  (* on the connection itself a read ends either alive (no close happened; errors were answered by replies) or closed,
+     and then EClose is the last thing that happened and the buffer is dropped *)
+  (forall s c, dead s = false -> exists evs,
+     out (feed parse s c) = out s ++ evs /\
+     (dead (feed parse s c) = false -> ~ In EClose evs) /\
+     (dead (feed parse s c) = true -> buf (feed parse s c) = [] /\ exists pre, evs = pre ++ [EClose] /\ ~ In EClose pre)).
+Proof. exact (fun F parse => conj (mfeed_local parse) (conj (mrun_projection parse) (feed_outcome parse))). Qed.
+Print Assumptions c08_error_is_local.
+
+(* which error class leads to which outcome (bolt; boltv2 alike): Decode error without a frame, a panic, or a frame with a
+   header-block error that is not a two-way request -> close; a two-way request with a header-block error -> reply *)
+Theorem c08_error_class_outcome_bolt : forall b,
+  match res (bolt_decode (view_of b)) with
+  | Ok (c, n) => bolt_parse b = if b_herr c then (if b_cmdtype c =? bolt_CmdTypeRequest then PErrReply c (N.to_nat n) else PErr) else POk c (N.to_nat n)
+  | NeedMore => bolt_parse b = PNeedMore
+  | _ => bolt_parse b = PErr
+  end.
+Proof. intros b. unfold bolt_parse, to_presult. destruct (res (bolt_decode (view_of b))) as [[c n]| | | |]; reflexivity. Qed.
+Print Assumptions c08_error_class_outcome_bolt.
+
+(* non-vacuity: three connections; connection 1 sends garbage and is closed, connection 2 sends a request with a dangling
+   header byte and gets a reply, connection 0 (a valid request cut in two reads around them) is served *)
+Example c08_error_is_local_example :
+  let req := [1;1;0;1;1; 0;0;0;7; 1; 0;0;0;100; 0;2; 0;10; 0;0;0;3; 97;98; 0;0;0;1;107;0;0;0;1;118; 1;2;3] in
+  let bad := [1;1;0;1;1; 0;0;0;9; 1; 0;0;0;100; 0;0; 0;1; 0;0;0;0; 5] in
+  let ms := mrun bolt_parse (fun _ => init) [(0%nat, firstn 20 req); (1%nat, [1;7;7;7;7;7;7;7;7;7;7;7;7;7;7;7;7;7;7;7;7;7]); (2%nat, bad); (0%nat, skipn 20 req)] in
+  dead (ms 1%nat) = true /\ dead (ms 2%nat) = false /\ length (out (ms 2%nat)) = 1%nat /\
+  ms 0%nat = feed bolt_parse init req /\ dead (ms 0%nat) = false /\ length (out (ms 0%nat)) = 1%nat.
+Proof. vm_compute. repeat split; reflexivity. Qed.
